@@ -73,8 +73,65 @@ fn check_nary(product: bool, arity: u8, mask: u8, time_perm: u8) -> CheckResult 
         "{} of arity {} with present pattern {:#010b}: got {:?}, the fold over exactly the present inputs is {:?} (the result identifies the contributing subset; a poisoned slot reads as ~3.39e38)",
         if product { "product" } else { "sum" }, n, mask, first, want
     );
+    // the same pattern with the absent inputs replaced by getters whose presence flips on every call (present first, then
+    // absent first): however often the stream polls an input, the result is the fold over the steady inputs plus *some*
+    // subset of the flickering ones - never a slot that was not written
+    for phase in 0..2u8 {
+        let got = catch(|| nary_with_flicker(n, product, &ins, phase));
+        ensure!(got.is_ok(), "C16/nary/panic", "arity {} pattern {:#010b} with flickering inputs: get() panicked: {}", n, mask, got.unwrap_err());
+        let got = got.unwrap();
+        let flick: Vec<usize> = (0..n).filter(|&i| ins[i].cat != 3).collect();
+        let mut explained = false;
+        for sub in 0..(1u32 << flick.len()) {
+            let members: Vec<&c02::In> = (0..n).filter(|&i| ins[i].cat == 3 || flick.iter().position(|&f| f == i).map(|p| sub >> p & 1 == 1).unwrap_or(false)).map(|i| &ins[i]).collect();
+            let want: Option<(i64, f32)> = if members.is_empty() { None } else { Some((members.iter().map(|p| p.t).max().unwrap(), if product { members.iter().map(|p| p.v).product::<f32>() } else { members.iter().map(|p| p.v).sum::<f32>() })) };
+            if got == Ok(want) {
+                explained = true;
+                break;
+            }
+        }
+        ensure!(explained, "C16/nary/unwritten-slot", "{} of arity {} where the inputs outside pattern {:#010b} flip between present and absent on every call (phase {}): got {:?}, which is not the fold over the steady inputs plus any subset of the flickering ones (a poisoned slot reads as ~3.39e38)", if product { "product" } else { "sum" }, n, mask, phase, got);
+    }
     let k = present.len();
     Ok(CaseInfo::new(k >= 1 && k < n, hash_of(&(product, arity, mask))).class("n-ary scratch array"))
+}
+struct Flicker {
+    calls: std::cell::Cell<u32>,
+    phase: u8,
+    steady: bool,
+    datum: Datum<f32>,
+}
+impl Getter<f32, crate::sut::E> for Flicker {
+    fn get(&self) -> Output<f32, crate::sut::E> {
+        let c = self.calls.get();
+        self.calls.set(c + 1);
+        Ok(if self.steady || (c + self.phase as u32) % 2 == 0 { Some(self.datum) } else { None })
+    }
+}
+impl Updatable<crate::sut::E> for Flicker {
+    fn update(&mut self) -> NothingOrError<crate::sut::E> {
+        Ok(())
+    }
+}
+fn nary_flicker_n<const N: usize>(product: bool, ins: &[c02::In], phase: u8) -> Result<Option<(i64, f32)>, i32> {
+    let inputs: [Reference<dyn Getter<f32, crate::sut::E>>; N] = core::array::from_fn(|i| to_dyn!(Getter<f32, crate::sut::E>, rc_ref_cell_reference(Flicker { calls: std::cell::Cell::new(0), phase, steady: ins[i].cat == 3, datum: Datum::new(Time(ins[i].t), ins[i].v) })));
+    let out = if product { rrtk::streams::math::ProductStream::new(inputs).get() } else { rrtk::streams::math::SumStream::new(inputs).get() };
+    match out {
+        Ok(o) => Ok(o.map(|d| (d.time.0, d.value))),
+        Err(e) => Err(crate::sut::err_code(e)),
+    }
+}
+fn nary_with_flicker(n: usize, product: bool, ins: &[c02::In], phase: u8) -> Result<Option<(i64, f32)>, i32> {
+    match n {
+        1 => nary_flicker_n::<1>(product, ins, phase),
+        2 => nary_flicker_n::<2>(product, ins, phase),
+        3 => nary_flicker_n::<3>(product, ins, phase),
+        4 => nary_flicker_n::<4>(product, ins, phase),
+        5 => nary_flicker_n::<5>(product, ins, phase),
+        6 => nary_flicker_n::<6>(product, ins, phase),
+        7 => nary_flicker_n::<7>(product, ins, phase),
+        _ => nary_flicker_n::<8>(product, ins, phase),
+    }
 }
 fn check_terminal(own: bool, partner: bool, linked: bool, order: u8, from_partner: bool) -> CheckResult {
     let mut arena = Arena::new();
@@ -600,7 +657,7 @@ pub fn check(s: &Scenario) -> CheckResult {
 pub struct C16;
 impl Property for C16 {
     const ID: &'static str = "C16";
-    const RULE: &'static str = "(a) exhaustive, with the cfg(rrtk_verif) hook that fills the four MaybeUninit scratch arrays with 0x7F bytes compiled in: n-ary sum and product of arity 1..8 x all 2^N present/absent patterns (inputs 2^i / the i-th prime, so the exact result identifies the contributing subset) x 3 timestamp permutations, terminal state read x own/partner/linked combinations x 5 timestamp orders (partner newer, own newer, equal, the two extremes) x both ends, Axle::<N>::new() for N = 0..8 followed by use of every terminal, and Axle::<N>::get_terminal(i) for every in-range index and 12 indices past the end (in range: the i-th slot inside the object; past the end: a panic, never an address outside the axle); a Borrow / BorrowMut of an Arc<Mutex> / Arc<RwLock> Reference holds its lock while it lives and a static_* call site evaluated twice hands out the same untouched object (the target cannot be replaced or dropped under a live borrow); the same enumeration also runs as a plain program under `cargo +nightly miri run` without the hook (arity <= 5 quick, <= 8 thorough). (b) generated #![forbid(unsafe_code)] probe programs: 11 terminal accessors x {drop, move into Box, move to another binding, move into Vec, escape the scope, connect to a longer-lived terminal then drop} x {read through the reference, connect it}, plus probes that try to build a dangling Borrow / BorrowMut / Reference / ReferenceUnsafe or call the unsafe constructors outside unsafe; each probe is compiled by rustc as its own crate against the live rrtk; oracle = must be rejected; every probe's control twin (device kept alive) must compile. Non-trivial = a pattern with >= 1 absent and >= 1 present input / a probe whose control twin compiles; distinct = pattern or probe id.";
+    const RULE: &'static str = "(a) exhaustive, with the cfg(rrtk_verif) hook that fills the four MaybeUninit scratch arrays with 0x7F bytes compiled in: n-ary sum and product of arity 1..8 x all 2^N present/absent patterns, each also with its absent inputs replaced by getters whose presence flips on every call (inputs 2^i / the i-th prime, so the exact result identifies the contributing subset) x 3 timestamp permutations, terminal state read x own/partner/linked combinations x 5 timestamp orders (partner newer, own newer, equal, the two extremes) x both ends, Axle::<N>::new() for N = 0..8 followed by use of every terminal, and Axle::<N>::get_terminal(i) for every in-range index and 12 indices past the end (in range: the i-th slot inside the object; past the end: a panic, never an address outside the axle); a Borrow / BorrowMut of an Arc<Mutex> / Arc<RwLock> Reference holds its lock while it lives and a static_* call site evaluated twice hands out the same untouched object (the target cannot be replaced or dropped under a live borrow); the same enumeration also runs as a plain program under `cargo +nightly miri run` without the hook (arity <= 5 quick, <= 8 thorough). (b) generated #![forbid(unsafe_code)] probe programs: 11 terminal accessors x {drop, move into Box, move to another binding, move into Vec, escape the scope, connect to a longer-lived terminal then drop} x {read through the reference, connect it}, plus probes that try to build a dangling Borrow / BorrowMut / Reference / ReferenceUnsafe or call the unsafe constructors outside unsafe; each probe is compiled by rustc as its own crate against the live rrtk; oracle = must be rejected; every probe's control twin (device kept alive) must compile. Non-trivial = a pattern with >= 1 absent and >= 1 present input / a probe whose control twin compiles; distinct = pattern or probe id.";
     type Scenario = Scenario;
     fn strategy(_tier: Tier) -> BoxedStrategy<Scenario> {
         Just(Scenario::AxleNew(0)).boxed()
